@@ -27,6 +27,9 @@ type c15Case struct {
 	DelOther bool `json:"delother,omitempty"`
 	// Asym: the downlink PDR of session 0 carries an application filter of its own, which nothing else uses
 	Asym bool `json:"asym,omitempty"`
+	// Solo: session 0 is the only user of its gNB peer, so that a handover away from it ends with the removal
+	// of that peer - one more write of the modification, and one that may fail like any other
+	Solo bool `json:"solo,omitempty"`
 }
 
 func c15Session(idx int, peer string, sdf string, twoQ bool) model.Op {
@@ -49,6 +52,11 @@ func c15Session(idx int, peer string, sdf string, twoQ bool) model.Op {
 
 // c15Exclusive checks, over the switch state, that no agent-managed identifier is referenced by two
 // live owners and that every reference resolves to the object its owner asked for.
+// c15AltPeer: per session index, the gNB that a rejected Update FAR named. When the writes of a rejected
+// modification were applied before the one that failed, the session's entries legitimately carry the new
+// tunnel although the session keeps its old rule; exclusivity is then judged against either.
+var c15AltPeer = map[int]string{}
+
 func c15Exclusive(run *sim.Runner, d *rig.P4d, free map[string]map[uint64]bool) error {
 	snap := d.Snap()
 	// (hook) an identifier that an entry of a live session references must not sit in its free pool, from
@@ -202,6 +210,9 @@ func c15Exclusive(run *sim.Runner, d *rig.P4d, free map[string]map[uint64]bool) 
 						}
 						continue // never written: see above
 					}
+					if alt := c15AltPeer[s.Idx]; alt != "" && uint32(pe.Params["dst_addr"]) == model.IP2U(alt) {
+						continue
+					}
 					if uint32(pe.Params["dst_addr"]) != model.IP2U(far.Peer) {
 						return fmt.Errorf("session %d references tunnel peer id %d, which now carries %s instead of its gNB %s (id handed out while in use)", s.Idx, id, model.U2IP(uint32(pe.Params["dst_addr"])), far.Peer)
 					}
@@ -243,6 +254,9 @@ func runC15(c c15Case, ev *Ev) error {
 	// two sessions with application + session QER that share peer A and filter F
 	for i := 0; i < 2; i++ {
 		op := c15Session(i, peerA, sdfF, true)
+		if c.Solo && i == 1 {
+			op = c15Session(i, "198.18.7.9", sdfF, true)
+		}
 		if c.Asym && i == 0 {
 			op.PDRs[1].SDF = "permit out udp from 6.6.6.0/24 to assigned"
 		}
@@ -272,6 +286,7 @@ func runC15(c c15Case, ev *Ev) error {
 	case "del":
 		target = model.Op{Kind: "del", Peer: 0, Seq: 300, Sess: 0, Note: "any"}
 	}
+	c15AltPeer = map[int]string{}
 	plan := map[int]string{}
 	if c.K > 0 {
 		plan[c.K] = c.Code
@@ -290,6 +305,9 @@ func runC15(c c15Case, ev *Ev) error {
 	injected := false
 	for _, w := range r.P4.LogSince(from) {
 		injected = injected || w.Failed != ""
+	}
+	if c.Target == "mod" && !o.Accepted {
+		c15AltPeer[0] = target.UpdFARs[0].Peer
 	}
 	if injected && o.Accepted && (c.Target == "est" || c.Target == "mod" || c.Target == "modqer") {
 		return fmt.Errorf("%s whose datapath write %d failed with %s was answered with acceptance\n%s", c.Target, c.K, c.Code, p4Diag(r, from))
@@ -362,13 +380,16 @@ func TestC15Enum(t *testing.T) {
 	}
 	n := 0
 	for _, target := range []string{"est", "mod", "modqer", "del"} {
-		for _, variant := range []struct{ shared, asym bool }{{true, false}, {false, false}, {true, true}} {
-			shared, asym := variant.shared, variant.asym
+		for _, variant := range []struct{ shared, asym, solo bool }{{true, false, false}, {false, false, false}, {true, true, false}, {false, false, true}} {
+			shared, asym, solo := variant.shared, variant.asym, variant.solo
 			if (target == "del" || target == "modqer") && !shared {
 				continue
 			}
+			if solo && target != "mod" {
+				continue
+			}
 			// fault-free run learns W
-			base := c15Case{Target: target, Shared: shared, After: 1, Asym: asym}
+			base := c15Case{Target: target, Shared: shared, After: 1, Asym: asym, Solo: solo}
 			probe := newEv("C15")
 			if err := runC15(base, probe); err != nil {
 				failNow(t, ev, "enum", base, err)
@@ -384,14 +405,14 @@ func TestC15Enum(t *testing.T) {
 						continue
 					}
 					for _, delOther := range []bool{false, true} {
-						c := c15Case{Target: target, K: k, Code: code, Shared: shared, After: scale(4, 7), DelOther: delOther, Asym: asym}
+						c := c15Case{Target: target, K: k, Code: code, Shared: shared, After: scale(4, 7), DelOther: delOther, Asym: asym, Solo: solo}
 						if err := runC15(c, ev); err != nil {
 							failNow(t, ev, "enum", c, err)
 						}
 					}
 				}
 			}
-			ev.Extra[fmt.Sprintf("W_%s_shared=%v_asym=%v", target, shared, asym)] = W
+			ev.Extra[fmt.Sprintf("W_%s_shared=%v_asym=%v_solo=%v", target, shared, asym, solo)] = W
 		}
 	}
 	ev.Exhaust = true
